@@ -409,6 +409,10 @@ class Connection(object):
             if self.__avail_tx_tls_pend is None:
                 self.__avail_tx_tls_pend = glib.idle_add(self._avail_tx_tls)
 
+        elif self.__s_notls is None:
+            # closed, there is nothing to send on
+            return
+
         else:
             if self.__avail_tx_notls_id is None:
                 self.__avail_tx_notls_id = glib.io_add_watch(
